@@ -16,7 +16,7 @@ VERIF = Path(__file__).resolve().parents[3]
 REPO = Path(os.environ.get("VERIF_REPO", "/repo"))
 CACHE = VERIF / ".cache"
 SPECS = VERIF / "specs"
-EVIDENCE = VERIF / "evidence"
+EVIDENCE = VERIF / "evidence" if str(REPO) == "/repo" else CACHE / "evidence-scratch"   # evidence/ only ever describes runs against /repo
 TARGET = Path(os.environ.get("VERIF_TARGET", str(CACHE / "target")))   # override only for trying seeded changes in a scratch worktree
 TMP = CACHE / "tmp"
 REPLAYS = CACHE / "replays"
